@@ -1,7 +1,7 @@
 // idbdrive: execute a script of query-library commands in ONE process (= one history of the
 // process-wide InterrogateDatabase singleton) and log every call and result, one line each.
 //
-//   idbdrive [--trace] [--nocatch] SCRIPT        (SCRIPT "-" = stdin)
+//   idbdrive [--trace] [--nocatch] [--alarm SECONDS] SCRIPT        (SCRIPT "-" = stdin)
 //
 // Script: one command per line, blank-separated tokens.  Strings are hex encoded with an 'x' prefix
 // ("x616263" = "abc", "x" = "", "-" = NULL pointer).
@@ -27,7 +27,7 @@
 //                                       -> "B LABEL" (flushed, before) then
 //                                          "P LABEL <error flag> <fnv64 of dump+sweep> <ntypes> <nfunctions>"
 //                                       or "P LABEL THREW <typeid>" when an exception escaped the C interface;
-//                                       a crash/20 s alarm ends the process after the B line
+//                                       a crash or the --alarm watchdog (default 20 s) ends the process after the B line
 //   prefixes FILE DIR HI PMAX L...      as probe, for the byte-prefixes of FILE with the given lengths
 //
 // VALUE: decimal int | "s:<hex>" string | "n" NULL | "p:<hex>" pointer | "v" void.
@@ -62,6 +62,7 @@ static const Fn TABLE[] = {
 static const int NFN = sizeof(TABLE) / sizeof(TABLE[0]);
 
 static bool g_trace = false;
+static int g_alarm = 20;           // --alarm N: seconds a single probe may take
 static bool g_nocatch = false;   // --nocatch: let exceptions escape (stack trace of the throw in the abort report)
 
 struct Val {
@@ -274,7 +275,7 @@ static void probe_body(const std::string &label, const char *file, int ident, in
 static void probe(const std::string &label, const char *file, int ident, int hi, int pmax) {
   InterrogateDatabase::_global_ptr = nullptr;        // harness is compiled with -fno-access-control
   std::cout << "B " << label << std::endl;
-  alarm(20);
+  alarm(g_alarm);
   if (g_nocatch) {
     probe_body(label, file, ident, hi, pmax);
   } else {
@@ -296,6 +297,7 @@ int main(int argc, char **argv) {
   for (int i = 1; i < argc; ++i) {
     if (!strcmp(argv[i], "--trace")) g_trace = true;
     else if (!strcmp(argv[i], "--nocatch")) g_nocatch = true;
+    else if (!strcmp(argv[i], "--alarm") && i + 1 < argc) g_alarm = atoi(argv[++i]);
     else script = argv[i];
   }
   if (!script) { std::cerr << "usage: idbdrive [--trace] SCRIPT\n"; return 3; }
